@@ -11,6 +11,7 @@ mod env;
 mod ev;
 mod fam;
 mod front;
+mod replay;
 
 use ev::{Ctx, Tier};
 use std::time::Instant;
@@ -22,6 +23,9 @@ fn main() {
         std::process::exit(2);
     }
     ev::install_quiet_panic_hook();
+    if args[1] == "replay" {
+        std::process::exit(replay::run(&args[2]));
+    }
     let mut tier = match std::env::var("VERIF_TIER").as_deref() {
         Ok("thorough") => Tier::Thorough,
         _ => Tier::Quick,
